@@ -26,7 +26,9 @@ def check(tier, seed):
                       "factorisation solves exactly (rounding not modelled)"]
     d.not_decided += ["KPM clause (tolerance proportional to the requested accuracy): convergence of the Chebyshev expansion is not decided; bounded battery of C16 only",
                       "dtype mixtures (numpy promotion rules)",
-                      "solve_sylvester_KPM and direct_greens_function internals (bounded battery of C16)"]
+                      "solve_sylvester_KPM, direct_greens_function / _constrain_matrix and _group_close_energies internals (bounded battery of C16); solve_sylvester_direct is under a "
+                      "structural contract: every level is solved with the Green's function built for a member of its own degeneracy group and that group's kernel columns, row k of "
+                      "Y P by the k-th function of the row block, result projected again; left-implicit branch column-wise with a minus sign"]
     d.explanation = ("The projected Hamiltonian of implicit mode is under contract (blocks L_i^dagger A R_j, L_i^dagger A Q, Q A R_j, Q A Q with Q the complement projector of "
                      "C17, only the last diagonal block wrapped as a linear operator); ComplementProjector denotes 1 - R L^dagger under every operation (C17 units re-run "
                      "here); the generated evaluators compute the same equations whether or not a block is kept as a linear operator (translation validation for both "
